@@ -2,7 +2,8 @@
    Statements only; proofs in Proofs/PegSpan.v, Proofs/XmlText.v. *)
 Require Import BB.Base.Str BB.Base.Xml BB.Base.Dict BB.Model.PegSyntax BB.Model.Peg BB.Model.Types BB.Model.Eid.
 Require Import BB.Model.EidSpec BB.Model.XmlGen BB.Model.Post.
-Require Import BB.Proofs.PegSpan BB.Proofs.XmlText.
+Require Import Permutation.
+Require Import BB.Proofs.PegSpan BB.Proofs.XmlText BB.Proofs.PostConserve.
 
 (* grammar stage, for every grammar, expression, input and offset: a successful match consumes a
    prefix of what remained, the node spans exactly that prefix, and the offset advances by its length *)
@@ -36,3 +37,13 @@ Theorem C03_normalise_keeps_text : forall f x,
   no_tail_after_removable f x = true -> xtexts (normalise f x) = xtexts x.
 Proof. exact normalise_texts. Qed.
 Print Assumptions C03_normalise_keeps_text.
+
+(* footnote resolution keeps every element that is not an internal block, with its attributes and its direct
+   text (and all text of a well-formed tree is the direct text of some element): see C14_no_content_vanishes *)
+Theorem C03_footnote_resolution_keeps_content : forall x y,
+  wfDx x = true -> resolve_displaced_content x = OkR y ->
+  exists used phs,
+    Permutation (xsigs y ++ map retag_sig used) (map retag_sig (xsigs x) ++ phs)
+    /\ Forall (fun s => fst (fst s) = DISPLACED) used /\ Forall (fun s => s = ph_sig) phs.
+Proof. exact displaced_conserves. Qed.
+Print Assumptions C03_footnote_resolution_keeps_content.
